@@ -86,4 +86,20 @@ theorem feasQubo_pos_rho (d : MPData) (rho : ℚ) (hrho : 0 < rho) (x : Vec) (hx
     · exact absurd h hrho.ne'
     · exact h
   · exact Or.inr
+
+/-- the package's feasibility tester (`vrpqubo/test_feasibility.py`) reports no violated linear row and a zero
+    quadratic measure exactly on the feasible set — hence exactly where the feasibility QUBO is zero -/
+theorem testFeasibility_clean_iff (d : MPData) (x : Vec) :
+    ((d.testFeasibility x).1.all (fun b => !b) = true ∧ (d.testFeasibility x).2.1 = 0) ↔ d.feasibleB x = true := by
+  simp only [MPData.testFeasibility, MPData.feasibleB, List.all_map, Function.comp_def, Bool.and_eq_true,
+    decide_eq_true_eq, List.all_eq_true, Bool.not_eq_true', decide_eq_false_iff_not, not_not, ne_eq]
+
+theorem testFeasibility_clean_iff_qubo_zero (d : MPData) (suff : ℚ) (x : Vec) (hx : IsBin d.n x) :
+    ((d.testFeasibility x).1.all (fun b => !b) = true ∧ (d.testFeasibility x).2.1 = 0) ↔
+      quad d.n (d.quboQ (defaultRho suff true) true) x + d.quboK (defaultRho suff true) = 0 :=
+  (testFeasibility_clean_iff d x).trans ((feasQubo_nonneg_zero_iff d suff x hx).2).symm
+
+/-- one flag per linear row -/
+theorem testFeasibility_length (d : MPData) (x : Vec) : (d.testFeasibility x).1.length = d.m := by
+  simp [MPData.testFeasibility]
 end Vrp.C03
